@@ -814,7 +814,7 @@ pub fn run(report: &Report, tier: &Tier) {
         report.floor(r, 100);
     }
     let seed = report.seed;
-    let n: u64 = if tier.thorough { 120_000 } else { 3_000 };
+    let n: u64 = if tier.thorough { 500_000 } else { 3_000 };
     run_parallel(report, n, threads(), tier.budget_s, |i, l| {
         run_one(util::mix(seed, 0xC06_0000 + i), "C06", l);
     });
@@ -822,7 +822,7 @@ pub fn run(report: &Report, tier: &Tier) {
 
 pub fn run_c10_responder(report: &Report, tier: &Tier, share: f64) {
     let seed = report.seed;
-    let n: u64 = if tier.thorough { 120_000 } else { 3_000 };
+    let n: u64 = if tier.thorough { 500_000 } else { 3_000 };
     run_parallel(report, n, threads(), tier.budget_s * share, |i, l| {
         run_one(util::mix(seed, 0xC10_0000 + i), "C10", l);
     });
